@@ -684,8 +684,23 @@ func (w *_assemblerRepr) asKinded(stg schema.UnionRepresentation_Kinded, kind da
 }
 
 func (w *_assemblerRepr) BeginMap(sizeHint int64) (datamodel.MapAssembler, error) {
-	if stg, ok := reprStrategy(w.schemaType).(schema.UnionRepresentation_Kinded); ok {
+	switch stg := reprStrategy(w.schemaType).(type) {
+	case schema.UnionRepresentation_Kinded:
 		return w.asKinded(stg, datamodel.Kind_Map).BeginMap(sizeHint)
+	case schema.StructRepresentation_Tuple, schema.StructRepresentation_ListPairs:
+		return nil, datamodel.ErrWrongKind{
+			TypeName:        w.schemaType.Name() + ".Repr",
+			MethodName:      "BeginMap",
+			AppropriateKind: datamodel.KindSet_JustList,
+			ActualKind:      datamodel.Kind_Map,
+		}
+	case schema.StructRepresentation_Stringjoin, schema.UnionRepresentation_Stringprefix:
+		return nil, datamodel.ErrWrongKind{
+			TypeName:        w.schemaType.Name() + ".Repr",
+			MethodName:      "BeginMap",
+			AppropriateKind: datamodel.KindSet_JustString,
+			ActualKind:      datamodel.Kind_Map,
+		}
 	}
 	asm, err := (*_assembler)(w).BeginMap(sizeHint)
 	if err != nil {
